@@ -206,11 +206,12 @@ def run_many(jobs: list, projector_ref: str, procs: int = 16, keep_report: bool 
     return res
 
 
-def call_in_pool(fn_ref: str, items: list, procs: int = 16) -> list:
-    """Generic fan-out: fn_ref = 'module:function' applied to each item in worker processes."""
+def call_in_pool(fn_ref: str, items: list, procs: int = 16, fresh: bool = False) -> list:
+    """Generic fan-out: fn_ref = 'module:function' applied to each item in worker processes.  With `fresh` every item runs in a
+    process of its own (forked from a worker that never runs an item itself): nothing an earlier item left behind can show."""
     if not items:
         return []
-    res = _robust_map(_call, [(fn_ref, it) for it in items], procs)
+    res = _robust_map(_call_fresh if fresh else _call, [(fn_ref, it) for it in items], procs)
     if any(r is None for r in res):
         from .common import MachineryFailure
         raise MachineryFailure(f'{fn_ref}: a worker process died twice on the same item')
@@ -221,6 +222,35 @@ def _call(a):
     fn_ref, item = a
     modname, fn = fn_ref.split(':')
     return getattr(importlib.import_module(modname), fn)(item)
+
+
+def _call_fresh(a):
+    import pickle
+    r, w = os.pipe()
+    pid = os.fork()
+    if pid == 0:
+        status = 1
+        try:
+            os.close(r)
+            try:
+                res = ('ok', _call(a))
+            except BaseException as ex:  # noqa: BLE001
+                res = ('err', f'{type(ex).__name__}: {ex}\n{traceback.format_exc()[-1500:]}')
+            with os.fdopen(w, 'wb') as f:
+                pickle.dump(res, f)
+            status = 0
+        finally:
+            os._exit(status)
+    os.close(w)
+    with os.fdopen(r, 'rb') as f:
+        data = f.read()
+    os.waitpid(pid, 0)
+    if not data:
+        raise RuntimeError(f'{a[0]}: the process running the item died without a result')
+    kind, val = pickle.loads(data)
+    if kind == 'err':
+        raise RuntimeError(val)
+    return val
 
 
 def example_inputs() -> dict:
